@@ -19,11 +19,12 @@ import (
 // ---- job -------------------------------------------------------------------------------------------------------
 
 type rbcJob struct {
-	Cfgs    []rbcJobCfg `json:"cfgs"`
-	Paths   [][]obj     `json:"paths"`
-	PathCfg []int       `json:"pathcfg"`
-	Tags    []string    `json:"tags"`
-	Workers int         `json:"workers"`
+	Cfgs    []rbcJobCfg      `json:"cfgs"`
+	Paths   [][]obj          `json:"paths"`
+	PathCfg []int            `json:"pathcfg"`
+	Tags    []string         `json:"tags"`
+	PathIDs []map[string]int `json:"pathids"` // optional per-path identifier map overriding the configuration's
+	Workers int              `json:"workers"`
 }
 
 type rbcJobCfg struct {
@@ -382,6 +383,9 @@ func init() {
 		defer em.flush()
 		parallel(len(job.Paths), job.Workers, func(i int) {
 			cfg := job.Cfgs[job.PathCfg[i]]
+			if i < len(job.PathIDs) && job.PathIDs[i] != nil {
+				cfg.IDs = job.PathIDs[i]
+			}
 			tag := ""
 			if i < len(job.Tags) {
 				tag = job.Tags[i]
